@@ -64,6 +64,36 @@ pub fn catalogue() -> Vec<(&'static str, Vec<MLayer>)> {
 			)],
 		),
 		(
+			"layer a, ids / unsigned / zigzag values / coordinates at every border of the varint encoding (2^(7k) - 1, 2^(7k), 2^(7k) + 1)",
+			vec![{
+				let mut values: Vec<(Enc, MVal)> = vec![];
+				let mut feats = vec![];
+				for k in 1..=9u32 {
+					for d in [-1i128, 0, 1] {
+						let v = (1i128 << (7 * k)) + d;
+						values.push((Enc::UInt64, MVal::Int(v)));
+						let i = values.len() as u32 - 1;
+						// zigzag(c) == v  <=>  c == v/2 (v even) or -(v+1)/2 (v odd): coordinates whose encoded parameter sits on the border
+						let c = if k <= 4 { if v % 2 == 0 { (v / 2) as i32 } else { (-(v + 1) / 2) as i32 } } else { k as i32 };
+						feats.push(feat(Some(v as u64), &[0, i], 1, point(c, -c)));
+						let z = if v % 2 == 0 { v / 2 } else { -(v + 1) / 2 };
+						values.push((Enc::SInt64, MVal::Int(z)));
+						feats.push(feat(Some(v as u64 ^ 1), &[1, i + 1], 1, point(1, 1)));
+					}
+				}
+				layer("a", &["u", "s"], values, feats)
+			}],
+		),
+		(
+			"layer a, strings of 127 / 128 / 129 / 16383 / 16384 / 16385 bytes as values and as a key",
+			vec![{
+				let lens = [127usize, 128, 129, 16383, 16384, 16385];
+				let values: Vec<(Enc, MVal)> = lens.iter().map(|l| s(&"v".repeat(*l))).collect();
+				let long_key = "k".repeat(128);
+				layer("a", &["k", &long_key], values, (0..lens.len() as u32).map(|i| feat(Some(i as u64), &[i % 2, i], 1, point(i as i32, 0))).collect())
+			}],
+		),
+		(
 			"2000 layers, each with a feature valued double 0.0 and one valued double -0.0 (and float zeros)",
 			(0..2000u32)
 				.map(|i| {
